@@ -1,6 +1,7 @@
 package props
 
 import (
+	"os"
 	"fmt"
 	"go/ast"
 	"go/constant"
@@ -1931,6 +1932,9 @@ func (h *hmapType) checkRemove() {
 					}
 				}
 			}
+			if os.Getenv("HMAP_DEBUG") != "" && strings.Contains(c, os.Getenv("HMAP_DEBUG")) {
+				fmt.Fprintln(os.Stderr, "HMAP_DEBUG", c, pa.String())
+			}
 			if isFound(pa) {
 				nf++
 				if pa.HasArg("BUCKET_UNLINK", "slot?") {
@@ -1941,6 +1945,31 @@ func (h *hmapType) checkRemove() {
 				}
 				if h.linked && pa.Count("UNLINK") != 1 {
 					probs = append(probs, "found entry is not removed from the order list exactly once")
+				}
+				// between the two halves of a removal (out of its bucket, still in the order list — or the
+				// other way round) the table and the list disagree about the entry: no helper that walks a
+				// chain runs in that window (a rebuild from the list would put the entry back)
+				if h.linked {
+					bu, ul := pa.Index("BUCKET_UNLINK"), pa.Index("UNLINK")
+					if bu >= 0 && ul >= 0 {
+						lo, hi := bu, ul
+						if lo > hi {
+							lo, hi = hi, lo
+						}
+						depth := 0
+						for k := lo + 1; k < hi; k++ {
+							switch pa[k].Kind {
+							case "ENTER":
+								depth++
+							case "LEAVE":
+								depth--
+							case "LOOP":
+								if depth > 0 {
+									probs = append(probs, "a helper that walks a chain runs between the bucket unlink and the order-list unlink of the removed entry: while it runs the entry is in one structure and not in the other (a table rebuilt from the list gets the removed entry back)")
+								}
+							}
+						}
+					}
 				}
 				// head unlink iff no predecessor
 				if pa.HasArg("COND", cc(predP, "!=", "nil", true)) && !pa.HasArg("BUCKET_UNLINK", "mid") && !pa.HasArg("BUCKET_UNLINK", "slot") {
